@@ -641,6 +641,15 @@ if isinstance(doc, Group):
     if not (reach_ab(doc.doc) or nrm_nil(doc.doc)):
         ok = ok and (oracle(k) == (triplestack[-1][1] is FLAT_MODE))
         k = k + 1
+    if triplestack[-1][1] is FLAT_MODE and classic_stack(triplestack):
+        # C05: a group laid out flat never overflows.  What remains to be rendered is dens(triplestack, ...) (invariant
+        # `den`); its first line - the one the text of this group is put on - ends at or before the page width and the
+        # ribbon counted from the current indentation, whatever is decided later (any oracle).  Classic documents.
+        lemma_fits_mono(available_width, min_nesting_level, available_width, triplestack)
+        lemma_fits_bounds_line(available_width, min_nesting_level, available_width, triplestack, St(erase_empty(__out__), outcol, k, False, 0))
+        lemma_indep_stack(triplestack, St(erase_empty(__out__), outcol, k, gb, gf), False, 0)
+        assert lineend(dens(triplestack, St(erase_empty(__out__), outcol, k, False, 0))) <= min(width, indent + RW)
+        assert implies(ok, dens(triplestack, St(erase_empty(__out__), outcol, k, False, 0)).out == FINAL_.out)
 elif isinstance(doc, Fill):
     if doc.docs:
         if not doc.docs[1:]:
@@ -652,8 +661,8 @@ elif isinstance(doc, Fill):
         else:
             ok = ok and (oracle(k) == (triplestack[-1][1] is FLAT_MODE)) and (oracle(k + 1) == (triplestack[:-1][-1][1] is FLAT_MODE))
             k = k + 2
-'''])},
-    serves=['C04', 'C12'],
+'''.replace('FINAL_', _FINAL)])},
+    serves=['C04', 'C05', 'C12'],
     note='ok records that the free oracle agrees with the decisions the engine took; the decision indices are distinct, '
          'so an oracle with ok == True exists for every run (meta-argument, DESIGN 5.1)')
 
